@@ -13,6 +13,7 @@
 //	srcerr underlying reader fails after k bytes: error or the full payload, never wrong data
 //	stress many goroutines opening/closing pooled readers and writers in tight loops
 //	conc   one codec value used from many goroutines
+//
 // Every read-direction op feeds the codec reader from a source that uses the freedom of io.Reader's contract:
 // short reads, occasional (0, nil), final bytes together with io.EOF.
 package main
@@ -187,9 +188,9 @@ func compressChunks(c compress.Codec, p []byte, chunks []int) ([]byte, error) {
 type piecewise struct {
 	b        []byte
 	n        func() int
-	dataEOF  bool  // return the final bytes with io.EOF in the same call
-	zeroAt   int   // every zeroAt-th call returns (0, nil); 0 = never
-	failAt   int   // ≥ 0: after that many bytes return failErr
+	dataEOF  bool // return the final bytes with io.EOF in the same call
+	zeroAt   int  // every zeroAt-th call returns (0, nil); 0 = never
+	failAt   int  // ≥ 0: after that many bytes return failErr
 	calls    int
 	lastZero bool
 }
@@ -374,9 +375,15 @@ func xerialBlocks(stream []byte) (string, bool) {
 
 type failingWriter struct{ after int }
 
+// Write accepts `after` more bytes, then fails (a short write with an error, as io.Writer requires).
 func (f *failingWriter) Write(b []byte) (int, error) {
-	if f.after <= 0 {
-		return 0, errors.New("sink failed")
+	if f.after < len(b) {
+		n := f.after
+		if n < 0 {
+			n = 0
+		}
+		f.after = 0
+		return n, errors.New("sink failed")
 	}
 	f.after -= len(b)
 	return len(b), nil
@@ -516,6 +523,95 @@ func overlapping(r *rand.Rand, c compress.Codec, name string, ps [][]byte) strin
 	return res
 }
 
+// readAllBounded is io.ReadAll that gives up on a reader making no progress (a broken reader must cost
+// seconds, not minutes).
+func readAllBounded(r io.Reader) ([]byte, error) {
+	var out []byte
+	buf := make([]byte, 8192)
+	idle := 0
+	for {
+		n, err := r.Read(buf)
+		out = append(out, buf[:n]...)
+		if err != nil {
+			if errors.Is(err, io.EOF) {
+				return out, nil
+			}
+			return out, err
+		}
+		if n == 0 {
+			idle++
+			if idle > 1000 {
+				return out, errors.New("reader makes no progress")
+			}
+		} else {
+			idle = 0
+		}
+	}
+}
+
+// stress: many goroutines opening / closing readers and writers of one codec value in tight loops, several
+// readers open per goroutine (objects then travel between goroutines through the pools' shared lists); every
+// stream must decode to its own payload.
+func stress(r *rand.Rand, cs []codecCase, G, iters int) {
+	for _, cc := range cs {
+		ps := make([][]byte, 4)
+		streams := make([][]byte, 4)
+		for i := range ps {
+			ps[i] = payload(r, i%3, []int{50, 700, 5000, 33000}[i])
+			streams[i], _ = compressChunks(cc.codec, ps[i], []int{len(ps[i])})
+		}
+		var wg sync.WaitGroup
+		var mu sync.Mutex
+		first := "none"
+		bad := 0
+		for g := 0; g < G; g++ {
+			wg.Add(1)
+			go func(g int) {
+				defer wg.Done()
+				res := guard(func() string {
+					for it := 0; it < iters; it++ {
+						// several readers open at once per goroutine, closed in a different order
+						i, j := (g+it)%4, (g+2*it+1)%4
+						r1 := cc.codec.NewReader(bytes.NewReader(streams[i]))
+						r2 := cc.codec.NewReader(bytes.NewReader(streams[j]))
+						g2, e2 := readAllBounded(r2)
+						g1, e1 := readAllBounded(r1)
+						r1.Close()
+						r2.Close()
+						if e1 != nil || e2 != nil {
+							return fmt.Sprintf("error:%v/%v", e1, e2)
+						}
+						if !bytes.Equal(g1, ps[i]) || !bytes.Equal(g2, ps[j]) {
+							return fmt.Sprintf("wrong-data:%s/%s-for-%s/%s", sum(g1), sum(g2), sum(ps[i]), sum(ps[j]))
+						}
+						if it%4 == 0 {
+							var buf bytes.Buffer
+							w := cc.codec.NewWriter(&buf)
+							w.Write(ps[i])
+							w.Close()
+							d, err := refDecode(cc.name, buf.Bytes())
+							if err != nil || !bytes.Equal(d, ps[i]) {
+								return "writer-output-not-readable-by-reference"
+							}
+						}
+					}
+					return "ok"
+				})
+				if res != "ok" {
+					mu.Lock()
+					bad++
+					if first == "none" {
+						first = strings.ReplaceAll(res, " ", "_")
+					}
+					mu.Unlock()
+				}
+			}(g)
+		}
+		wg.Wait()
+		emit(fmt.Sprintf("stress %s %d", cc.name, G), fmt.Sprintf("ok %d %s", G-bad, first))
+	}
+}
+
 func main() {
 	defer out.Flush()
 	r := gen.New()
@@ -525,8 +621,21 @@ func main() {
 		rounds = 6
 	}
 	cs := codecs()
+	stressOnly := len(os.Args) > 1 && os.Args[1] == "stress"
+	if stressOnly {
+		// watchdog: whatever hangs, report what was observed so far
+		time.AfterFunc(45*time.Second, func() {
+			emit("stress watchdog 0", "timeout")
+			out.Flush()
+			os.Exit(3)
+		})
+	}
 
 	for round := 0; round < rounds; round++ {
+		if stressOnly {
+			stress(r, cs, 32, 120)
+			continue
+		}
 		// --- xw: writer block structure
 		for _, framed := range []bool{true, false} {
 			c := &snappy.Codec{}
@@ -668,68 +777,41 @@ func main() {
 				}))
 			}
 		}
-		// --- stress: many goroutines opening / closing readers and writers of one codec value in tight loops
-		// (objects travel between goroutines through the pools); every stream must decode to its own payload
+		// --- wrerr: the underlying writer fails after k bytes: Write or Close must report an error
 		for _, cc := range cs {
-			G, iters := 24, 40
-			if thorough {
-				G, iters = 48, 150
-			}
-			ps := make([][]byte, 4)
-			streams := make([][]byte, 4)
-			for i := range ps {
-				ps[i] = payload(r, i%3, []int{50, 700, 5000, 33000}[i])
-				streams[i], _ = compressChunks(cc.codec, ps[i], []int{len(ps[i])})
-			}
-			var wg sync.WaitGroup
-			var mu sync.Mutex
-			first := "none"
-			bad := 0
-			for g := 0; g < G; g++ {
-				wg.Add(1)
-				go func(g int) {
-					defer wg.Done()
-					res := guard(func() string {
-						for it := 0; it < iters; it++ {
-							// several readers open at once per goroutine, closed in a different order
-							i, j := (g+it)%4, (g+2*it+1)%4
-							r1 := cc.codec.NewReader(bytes.NewReader(streams[i]))
-							r2 := cc.codec.NewReader(bytes.NewReader(streams[j]))
-							g2, e2 := io.ReadAll(r2)
-							g1, e1 := io.ReadAll(r1)
-							r1.Close()
-							r2.Close()
-							if e1 != nil || e2 != nil {
-								return fmt.Sprintf("error:%v/%v", e1, e2)
-							}
-							if !bytes.Equal(g1, ps[i]) || !bytes.Equal(g2, ps[j]) {
-								return fmt.Sprintf("wrong-data:%s/%s-for-%s/%s", sum(g1), sum(g2), sum(ps[i]), sum(ps[j]))
-							}
-							if it%4 == 0 {
-								var buf bytes.Buffer
-								w := cc.codec.NewWriter(&buf)
-								w.Write(ps[i])
-								w.Close()
-								d, err := refDecode(cc.name, buf.Bytes())
-								if err != nil || !bytes.Equal(d, ps[i]) {
-									return "writer-output-not-readable-by-reference"
-								}
-							}
+			for i := 0; i < 4; i++ {
+				p := payload(r, r.Intn(3), []int{20, 3000, 40000, 70000}[r.Intn(4)])
+				stream, err := compressChunks(cc.codec, p, []int{len(p)})
+				if err != nil || len(stream) < 2 {
+					continue
+				}
+				k := r.Intn(len(stream))
+				chunks := chunking(r, len(p))
+				emit(fmt.Sprintf("wrerr %s %s cut%d/%d", cc.name, sum(p), k, len(stream)), guard(func() string {
+					w := cc.codec.NewWriter(&failingWriter{after: k})
+					rest := p
+					var werr error
+					for _, n := range chunks {
+						if _, e := w.Write(rest[:n]); e != nil && werr == nil {
+							werr = e
 						}
-						return "ok"
-					})
-					if res != "ok" {
-						mu.Lock()
-						bad++
-						if first == "none" {
-							first = strings.ReplaceAll(res, " ", "_")
-						}
-						mu.Unlock()
+						rest = rest[n:]
 					}
-				}(g)
+					if e := w.Close(); e != nil && werr == nil {
+						werr = e
+					}
+					if werr == nil {
+						return "unsound:no-error-reported"
+					}
+					return "sound"
+				}))
 			}
-			wg.Wait()
-			emit(fmt.Sprintf("stress %s %d", cc.name, G), fmt.Sprintf("ok %d %s", G-bad, first))
+		}
+		// --- stress: many goroutines opening / closing readers and writers in tight loops
+		if thorough {
+			stress(r, cs, 48, 150)
+		} else {
+			stress(r, cs, 24, 40)
 		}
 		// --- hist: same stream through pooled objects after disturbances; output bytes and data identical to first use
 		for _, cc := range cs {
